@@ -201,6 +201,18 @@ pub const REGIONS: [Region; 9] = [
 
 /// Draw one entry point of the registry with settings, and say where its
 /// server(s) must live. `max_retries` bounds the retry setting.
+/// The HTTP game against a scripted TCP peer (the real HTTP client runs), through the module or the
+/// definition-driven entry point.
+pub fn eco_http_scenario(t: &mut Tape, ip: IpAddr, max_retries: u64) -> Scenario {
+    let explicit_port = if t.draw(CFG, 2) == 0 { None } else { Some(1024 + t.draw(CFG, 60_000) as u16) };
+    let timeout = gen::timeouts(t, max_retries);
+    let level = t.draw(CFG, 3) as u8;
+    let entry = if t.draw(CFG, 3) == 0 { Entry::Generic { game_id: "eco", extra: None, level } } else { Entry::Eco { level } };
+    let call = Call { entry, ip, port: explicit_port, default_port: 3001, timeout: if level == 0 { None } else { timeout } };
+    let addr = call.sockaddr();
+    Scenario { call, placements: vec![Placement { addr, proto: Proto::Tcp, fam: Fam::EcoHttp }], http: false }
+}
+
 pub fn gen_scenario(t: &mut Tape, ip: IpAddr, max_retries: u64) -> Scenario {
     let explicit_port = if t.draw(CFG, 2) == 0 { None } else { Some(1024 + t.draw(CFG, 60_000) as u16) };
     let timeout = gen::timeouts(t, max_retries);
